@@ -2603,6 +2603,22 @@ func (db *DB) checkpointWithExecutor(ctx context.Context, mode string, exec *syn
 		return false, err
 	}
 
+	// Only a PASSIVE checkpoint holds the write lock from the sealed sync to
+	// the checkpoint. In every other mode commits may land in between and be
+	// backfilled without ever being copied, which the boundary sync below
+	// makes up for. If a step fails before that sync has run, the next sync
+	// must not mistake the restarted WAL for a continuation of what was
+	// copied: forget the WAL bookkeeping so verify treats the restart like
+	// one that happened while litestream was not replicating and snapshots.
+	if mode != CheckpointModePassive {
+		defer func() {
+			if err != nil {
+				exec.state.lastSyncedWALOffset = 0
+				exec.state.syncedToWALEnd = false
+			}
+		}()
+	}
+
 	if barrierTx != nil {
 		if err = rollback(barrierTx); err != nil {
 			return false, fmt.Errorf("rollback passive checkpoint barrier: %w", err)
